@@ -11,6 +11,7 @@ import (
 	"strings"
 
 	"github.com/ddddddO/gtree"
+	"github.com/fatih/color"
 )
 
 func plusList(s string) []string {
@@ -39,6 +40,12 @@ func runHist(spec string, massive bool) string {
 	defer jailLeave()
 	var handles []*gtree.Node
 	var outs []string
+	colorForced, savedNoColor := false, false
+	defer func() {
+		if colorForced {
+			color.NoColor = savedNoColor
+		}
+	}()
 	var iters map[string]iter.Seq2[*gtree.WalkerNode, error]
 	node := func(h string) *gtree.Node {
 		if h == "N" {
@@ -124,6 +131,44 @@ func runHist(spec string, massive bool) string {
 				}
 			}
 			outs = append(outs, classify(ierr, -1)+" "+visitsStr(vs))
+		case "Wn":
+			// Wn,h,h2,LD,LI,MD,MI : WalkFromRoot(h) whose callback, at its first visit, renders root h2 (a From-Root call made
+			// from inside a callback); the result is the walk's
+			var vs []visitRec
+			first := true
+			cb := func(wn *gtree.WalkerNode) error {
+				vs = append(vs, recVisit(wn))
+				if first {
+					first = false
+					var nb bytes.Buffer
+					_ = gtree.OutputFromRoot(&nb, node(f[2]))
+				}
+				return nil
+			}
+			err := gtree.WalkFromRoot(node(f[1]), cb,
+				gtree.WithBranchFormatLastNode(unhex(f[3]), unhex(f[4])),
+				gtree.WithBranchFormatIntermedialNode(unhex(f[5]), unhex(f[6])))
+			outs = append(outs, classify(err, -1)+" "+visitsStr(vs))
+		case "Ob":
+			// Ob,h,BUDGET : OutputFromRoot into a writer that fails after BUDGET bytes (interference only)
+			b, _ := strconv.Atoi(f[2])
+			if len(f) > 3 {
+				// Ob,h,BUDGET,DOC : the same through OutputFromMarkdown (both routes)
+				_ = gtree.OutputFromMarkdown(&budgetWriter{budget: b, flavour: "0"}, strings.NewReader(unhex(f[3])))
+				_ = gtree.OutputFromMarkdown(&budgetWriter{budget: b, flavour: "0"}, strings.NewReader(unhex(f[3])), gtree.WithNoUseIterOfSimpleOutput())
+			} else {
+				_ = gtree.OutputFromRoot(&budgetWriter{budget: b, flavour: "0"}, node(f[1]))
+			}
+			outs = append(outs, "b")
+		case "K":
+			// colours on for the rest of this history (fatih/color decides by the terminal; a library call must not
+			// leave colour codes in the caller's tree)
+			if !colorForced {
+				colorForced = true
+				savedNoColor = color.NoColor
+				color.NoColor = false
+			}
+			outs = append(outs, "k")
 		case "Ic":
 			// Ic,K,h,LD,LI,MD,MI : obtain the iterator now, consume it later (Ir)
 			opts := []gtree.Option{
